@@ -81,6 +81,7 @@ def action_grammars():
         ], pub=True, ty="u8"),
         NT("T", [
             AA([Sel(Nt("T")), "*", Sel(Nt("F"))], ("userall", 3)),                   # <> = the two selected
+            AA([N("zz", Nt("T")), "~", N("aa", Nt("F")), "~", N("mm", Nt("F"))], ("userall", 6)),   # <> with names = the named symbols in SOURCE order (names deliberately not sorted)
             AA(["F"]),
         ], ty="u8"),
         NT("F", [
@@ -120,6 +121,7 @@ def action_grammars():
             AA(["n"]),
             AA(["(", N("x", Nt("W")), N("y", Nt("W")), ")"], FA(23, "x", "y")),       # two occurrences of an inlined fallible nonterminal
             AA([N("w", Nt("Z")), ";"], UA(27, "w")),
+            AA(["(", N("w", Nt("Z")), ")"], UA(29, "w")),                             # the empty inlined Z between two tokens: @L = start of `)`, @R = end of `(`
         ], ty="u8"),
         NT("W", [AA([N("v", Nt("V"))], FA(24, "v"))], inline=True, ty="u8"),           # nested inlining, both fallible
         NT("V", [AA(["n"], FA(25)), AA(["-", N("k", Nt("T"))], UA(26, "k"))], inline=True, ty="u8"),
